@@ -33,8 +33,8 @@ def _marg(uni, X, dims, mult):
     return [int(mult * lab.data[k]) for k in keys]
 
 
-def gen_system(rng, k):
-    uni = mk_universe((3, 2, 2), "tab", int_dims=("t",))
+def gen_system(rng, k, falsy=False):
+    uni = mk_universe((3, 2, 2), "tab", int_dims=("t",), falsy=falsy)
     L = ["t", "a", "b"]
     n = nelem(uni, L)
     X = dict(dims=L, values=[rng.randint(0, 5) for _ in range(n)])
@@ -142,6 +142,15 @@ def generate(tier, rng):
             exc = [sysd["flows"][0]["name"]] if (k + vi) % 4 == 0 and sysd["flows"] else []
             if (k + vi) % 7 == 0 and len(sysd["procs"]) > 1:
                 exc.append(sysd["procs"][1])
+            # the same system in a very small or very large unit (every value and the tolerance times a power of two): the
+            # verdicts do not depend on the unit, the default tolerance scales with the largest magnitude
+            scale = [1, 1, Fraction(1, 2 ** 40), 2 ** 40][k % 4]
+            if scale != 1:
+                sc = lambda v: v if v == "nan" else str(Fraction(v) * scale)
+                sysd = dict(sysd, flows=[dict(f, arr=dict(f["arr"], values=[sc(v) for v in f["arr"]["values"]])) for f in sysd["flows"]],
+                            stocks=[dict(s_, inflow=[sc(v) for v in s_["inflow"]], outflow=[sc(v) for v in s_["outflow"]],
+                                         stock=[sc(v) for v in s_["stock"]]) for s_ in sysd["stocks"]])
+                tol = None if tol is None else tol * scale
             cases.append(dict(stream="exact", mode=mode, sys=sysd, tol=None if tol is None else str(tol), exceptions=exc,
                               compare_balances=compare_balances))
     return cases
